@@ -45,88 +45,143 @@ def tens(b: Batch):
     return [a for a in list(b.args) + list(b.kwargs.values()) if isinstance(a, torch.Tensor)]
 
 
-def check_merge(rep, rng, spec, cfg0):
-    cfg = fresh_cfg(cfg0)
-    k = rng.randint(1, 3)
-    srcs = [fed(spec, cfg, gen_stream(spec, cfg, rng, rng.randint(0, 2))) for _ in range(k)]
-    tgt = fed(spec, cfg, gen_stream(spec, cfg, rng, rng.choice([0, 0, 1, 2])))
+def would_crash(spec, m):
+    return spec.name == "FrechetAudioDistance" and (m.pred_n < 2 or m.target_n < 2)
+
+
+def merge_oracle(spec: Spec, cfg: dict, src_bs, tgt_bs, later_bs, notes=None):
+    """sources fed `src_bs[i]`, target fed `tgt_bs`; bitwise snapshots (state_dict + compute) of every source before the merge
+    and after each later stage (merge, `later_bs` updates of the target, a second merge of source 0, compute, reset).
+    returns (violation | None, nonempty, before, target snapshot); violation = (signature, what, replay dict)."""
+    srcs = [fed(spec, cfg, bs) for bs in src_bs]
+    tgt = fed(spec, cfg, tgt_bs)
     before = [full_snap(s) for s in srcs]
-    nonempty = sum(1 for s, b in zip(srcs, before) if b[0] != full_snap(new_metric(spec, cfg))[0])
-    rep.count(f"class:{spec.name}")
-    rep.case(nontrivial_key=(spec.name, repr(public_cfg(cfg)), "merge", ckey(before), ckey(full_snap(tgt))) if nonempty else None,
-             sample={"class": spec.name, "cfg": public_cfg(cfg), "sources": k, "kind": "merge-noninterference"} if rep.evaluations % 409 == 0 else None)
-    ctx = {"class": spec.name, "cfg": public_cfg(cfg), "sources": k}
-    stages = []
-    tgt.merge_state(srcs); stages.append("merge_state(sources)")
+    empty = full_snap(new_metric(spec, cfg))[0]
+    nonempty = sum(1 for b in before if b[0] != empty)
+    tsnap = full_snap(tgt)
+
     def chk(stage):
         for i, s in enumerate(srcs):
             now = full_snap(s)
             if not snap_equal(before[i], now):
-                rep.violation(f"C11|{spec.name}.merge_state|source-changed",
-                              f"{spec.name}{public_cfg(cfg)}: source {i} changed after {stage}: before {str(before[i])[:160]} now {str(now)[:160]}",
-                              {**ctx, "stage": stage, "source": i})
-                return False
-        return True
-    if not chk(stages[-1]):
-        return
+                return (f"C11|{spec.name}.merge_state|source-changed",
+                        f"{spec.name}{public_cfg(cfg)}: source {i} changed after {stage}: before {str(before[i])[:160]} now {str(now)[:160]}",
+                        {"check": "merge", "class": spec.name, "cfg": public_cfg(cfg), "sources": [[b.describe() for b in bs] for bs in src_bs],
+                         "target": [b.describe() for b in tgt_bs], "later": [b.describe() for b in later_bs], "stage": stage, "source": i})
+        return None
+    tgt.merge_state(srcs)
+    v = chk("merge_state(sources)")
+    if v:
+        return v, nonempty, before, tsnap
     try:
-        for b in gen_stream(spec, cfg, rng, 2):
+        for b in later_bs:
             b.apply(tgt)
-        if not chk("a later update() of the target"):
-            return
+        v = chk("a later update() of the target")
+        if v:
+            return v, nonempty, before, tsnap
         tgt.merge_state([srcs[0]])
-        if not chk("merging a source a second time"):
-            return
-        tgt.compute() if not (spec.name == "FrechetAudioDistance" and (tgt.pred_n < 2 or tgt.target_n < 2)) else None
-        if not chk("compute() of the target"):
-            return
+        v = chk("merging a source a second time")
+        if v:
+            return v, nonempty, before, tsnap
+        tgt.compute() if not would_crash(spec, tgt) else None
+        v = chk("compute() of the target")
+        if v:
+            return v, nonempty, before, tsnap
         tgt.reset()
-        chk("reset() of the target")
+        v = chk("reset() of the target")
     except Exception as e:  # noqa: BLE001
-        rep.notes.append(f"{spec.name}: later operation raised {e!r}"[:160])
+        if notes is not None:
+            notes.append(f"{spec.name}: later operation raised {e!r}"[:160])
+        v = None
+    return v, nonempty, before, tsnap
+
+
+def check_merge(rep, rng, spec, cfg0):
+    cfg = fresh_cfg(cfg0)
+    k = rng.randint(1, 3)
+    src_bs = [gen_stream(spec, cfg, rng, rng.randint(0, 2)) for _ in range(k)]
+    tgt_bs = gen_stream(spec, cfg, rng, rng.choice([0, 0, 1, 2]))
+    later_bs = gen_stream(spec, cfg, rng, 2)
+    v, nonempty, before, tsnap = merge_oracle(spec, cfg, src_bs, tgt_bs, later_bs, rep.notes)
+    rep.count(f"class:{spec.name}")
+    rep.case(nontrivial_key=(spec.name, repr(public_cfg(cfg)), "merge", ckey(before), ckey(tsnap)) if nonempty else None,
+             sample={"class": spec.name, "cfg": public_cfg(cfg), "sources": k, "kind": "merge-noninterference"} if rep.evaluations % 409 == 0 else None)
+    if v:
+        rep.violation(*v)
+
+
+def compute_oracle(spec: Spec, cfg: dict, bs):
+    """compute() twice on a metric fed `bs`: state_dict(), the value and the plain attributes must not move.
+    returns (violation | None, snapshot before)."""
+    m = fed(spec, cfg, bs)
+    s0 = snapshot(m)
+    plain0 = {k: repr(v) for k, v in vars(m).items() if not isinstance(v, (torch.Tensor, list, dict)) and k != "model"}
+    o1 = observe(m); s1 = snapshot(m); o2 = observe(m); s2 = snapshot(m)
+    ctx = {"check": "compute", "class": spec.name, "cfg": public_cfg(cfg), "batches": [b.describe() for b in bs], "first": obs_json(o1), "second": obs_json(o2)}
+    if not snap_equal(s0, s1) or not snap_equal(s1, s2):
+        return (f"C11|{spec.name}.compute|state_dict-changed", f"{spec.name}{public_cfg(cfg)}: compute() changed state_dict()", ctx), s0
+    if not same_obs(o1, o2, 0.0):
+        return (f"C11|{spec.name}.compute|not-idempotent", f"{spec.name}{public_cfg(cfg)}: compute() twice: {obs_json(o1)} then {obs_json(o2)}", ctx), s0
+    if plain0 != {k: repr(v) for k, v in vars(m).items() if k in plain0}:
+        return (f"C11|{spec.name}.compute|attribute-changed", f"{spec.name}{public_cfg(cfg)}: compute() changed a plain attribute", ctx), s0
+    return None, s0
 
 
 def check_compute(rep, rng, spec, cfg0):
     cfg = fresh_cfg(cfg0)
-    m = fed(spec, cfg, gen_stream(spec, cfg, rng, rng.choice([0, 1, 2, 3])))
-    s0 = snapshot(m)
-    plain0 = {k: repr(v) for k, v in vars(m).items() if not isinstance(v, (torch.Tensor, list, dict)) and k != "model"}
-    o1 = observe(m); s1 = snapshot(m); o2 = observe(m); s2 = snapshot(m)
+    bs = gen_stream(spec, cfg, rng, rng.choice([0, 1, 2, 3]))
+    v, s0 = compute_oracle(spec, cfg, bs)
     rep.case(nontrivial_key=(spec.name, repr(public_cfg(cfg)), "compute", ckey(s0)))
-    ctx = {"class": spec.name, "cfg": public_cfg(cfg), "first": obs_json(o1), "second": obs_json(o2)}
-    if not snap_equal(s0, s1) or not snap_equal(s1, s2):
-        rep.violation(f"C11|{spec.name}.compute|state_dict-changed", f"{spec.name}{public_cfg(cfg)}: compute() changed state_dict()", ctx)
-    elif not same_obs(o1, o2, 0.0):
-        rep.violation(f"C11|{spec.name}.compute|not-idempotent", f"{spec.name}{public_cfg(cfg)}: compute() twice: {obs_json(o1)} then {obs_json(o2)}", ctx)
-    elif plain0 != {k: repr(v) for k, v in vars(m).items() if k in plain0}:
-        rep.violation(f"C11|{spec.name}.compute|attribute-changed", f"{spec.name}{public_cfg(cfg)}: compute() changed a plain attribute", ctx)
+    if v:
+        rep.violation(*v)
+
+
+def args_update_oracle(spec: Spec, cfg: dict, pre_bs, b: Batch, nc: bool):
+    """update(b) on a metric fed `pre_bs` (`nc`: the tensors of b are non-contiguous views): shape, stride and values of the
+    caller's tensors and the caller's sequences must not move.  returns (violation | None, stop, picture of the arguments before)."""
+    import copy
+    m = fed(spec, cfg, pre_bs)
+    ctx = {"check": "args-update", "class": spec.name, "cfg": public_cfg(cfg), "pre": [x.describe() for x in pre_bs], "batch": b.describe(), "noncontig": nc}
+    if nc:
+        b = noncontig(b, None)
+    before = [(t.clone(), t.stride(), t.shape) for t in tens(b)]
+    nb = copy.deepcopy([a for a in b.args if not isinstance(a, torch.Tensor)])
+    b.apply(m)
+    for t, (c, st, sh) in zip(tens(b), before):
+        if t.shape != sh or t.stride() != st or not torch.equal(t.to(torch.float64).nan_to_num(), c.to(torch.float64).nan_to_num()):
+            return (f"C11|{spec.name}.update|argument-modified", f"{spec.name}{public_cfg(cfg)}: update() modified a caller tensor", ctx), True, before
+    if nb != [a for a in b.args if not isinstance(a, torch.Tensor)]:
+        return (f"C11|{spec.name}.update|argument-modified", f"{spec.name}: update() modified a caller sequence", ctx), False, before
+    return None, False, before
+
+
+def args_functional_oracle(spec: Spec, cfg: dict, b2: Batch):
+    """the functional twin on non-contiguous views of `b2`: the caller's tensors must not move.  violation | None."""
+    ctx = {"check": "args-functional", "class": spec.name, "cfg": public_cfg(cfg), "batch": b2.describe(), "noncontig": True}
+    b2 = noncontig(b2, None)
+    before = [t.clone() for t in tens(b2)]
+    call_real(lambda: spec.functional(cfg, b2))
+    for t, c in zip(tens(b2), before):
+        if not torch.equal(t.to(torch.float64).nan_to_num(), c.to(torch.float64).nan_to_num()):
+            return (f"C11|{spec.name}|functional|argument-modified", f"functional twin of {spec.name} modified a caller tensor", ctx)
+    return None
 
 
 def check_args(rep, rng, spec, cfg0):
     cfg = fresh_cfg(cfg0)
-    m = fed(spec, cfg, gen_stream(spec, cfg, rng, rng.choice([0, 1])))
+    pre_bs = gen_stream(spec, cfg, rng, rng.choice([0, 1]))
     b = spec.gen(rng, cfg, rng.choice(spec.sizes))
-    if rng.random() < 0.5:
-        b = noncontig(b, rng)
-    before = [(t.clone(), t.stride(), t.shape) for t in tens(b)]
-    import copy
-    nb = copy.deepcopy([a for a in b.args if not isinstance(a, torch.Tensor)])
-    b.apply(m)
+    nc = rng.random() < 0.5
+    v, stop, before = args_update_oracle(spec, cfg, pre_bs, b, nc)
     rep.case(nontrivial_key=(spec.name, repr(public_cfg(cfg)), "args", ckey(before)))
-    for t, (c, st, sh) in zip(tens(b), before):
-        if t.shape != sh or t.stride() != st or not torch.equal(t.to(torch.float64).nan_to_num(), c.to(torch.float64).nan_to_num()):
-            rep.violation(f"C11|{spec.name}.update|argument-modified", f"{spec.name}{public_cfg(cfg)}: update() modified a caller tensor", {"class": spec.name, "cfg": public_cfg(cfg), "batch": b.describe()})
+    if v:
+        rep.violation(*v)
+        if stop:
             return
-    if nb != [a for a in b.args if not isinstance(a, torch.Tensor)]:
-        rep.violation(f"C11|{spec.name}.update|argument-modified", f"{spec.name}: update() modified a caller sequence", {"class": spec.name, "batch": b.describe()})
     if spec.functional is not None and spec.cat is not None:
-        b2 = noncontig(spec.gen(rng, cfg, rng.choice(spec.sizes)), rng)
-        before = [t.clone() for t in tens(b2)]
-        call_real(lambda: spec.functional(cfg, b2))
-        for t, c in zip(tens(b2), before):
-            if not torch.equal(t.to(torch.float64).nan_to_num(), c.to(torch.float64).nan_to_num()):
-                rep.violation(f"C11|{spec.name}|functional|argument-modified", f"functional twin of {spec.name} modified a caller tensor", {"class": spec.name, "cfg": public_cfg(cfg), "batch": b2.describe()})
-                return
+        v = args_functional_oracle(spec, cfg, spec.gen(rng, cfg, rng.choice(spec.sizes)))
+        if v:
+            rep.violation(*v)
 
 
 def sweep(rep, rng, reps, deadline):
@@ -146,3 +201,36 @@ def run(rep: Report):
 
 def search(rep: Report):
     sweep(rep, Rng(rep.seed * 5 + 1111), 20, time.time() + 120)
+
+
+# ------------------------------------------------------------------ replay
+
+def replay(payload) -> bool:
+    """True iff the property holds on the recorded case; `check` names the sub-check that fired (merge / compute /
+    args-update / args-functional) and the same oracle function the sweep uses is run on the rebuilt batches."""
+    rp = payload.get("replay") or {}
+    if payload.get("kind", "failing-input") != "failing-input" or "class" not in rp:
+        raise ValueError(f"nothing to replay: payload kind {payload.get('kind')!r} carries no concrete input")
+    from ..registry import BY_NAME
+    spec, cfg = BY_NAME[rp["class"]], dict(rp.get("cfg") or {})
+    bl = lambda ds: [Batch.from_describe(d) for d in ds]  # noqa: E731
+    check = rp.get("check")
+    if check == "merge" and isinstance(rp.get("sources"), list):
+        notes: list = []
+        v = merge_oracle(spec, cfg, [bl(x) for x in rp["sources"]], bl(rp["target"]), bl(rp["later"]), notes)[0]
+        for n in notes:
+            print("replay: note:", n)
+    elif check == "compute" and "batches" in rp:
+        v = compute_oracle(spec, cfg, bl(rp["batches"]))[0]
+    elif check == "args-update" and "batch" in rp:
+        v = args_update_oracle(spec, cfg, bl(rp.get("pre") or []), Batch.from_describe(rp["batch"]), bool(rp.get("noncontig")))[0]
+    elif check == "args-functional" and "batch" in rp:
+        if spec.functional is None:
+            raise ValueError(f"nothing to replay: {spec.name} has no functional twin")
+        v = args_functional_oracle(spec, cfg, Batch.from_describe(rp["batch"]))
+    else:
+        raise ValueError(f"nothing to replay: the payload does not record the inputs of a C11 sub-check (check={check!r}; "
+                         "payloads written before the batches were recorded cannot be rebuilt)")
+    if v is not None:
+        print(f"replay: {v[0]}: {v[1]}"[:600])
+    return v is None
